@@ -102,6 +102,7 @@ type gCase struct {
 	ID    string   `json:"id"`
 	Pre   []string `json:"pre"`
 	UKind string   `json:"ukind"`
+	Reuse bool     `json:"reuse"` // one process: the same regular.Handler object and the same forwarded connection serve all runs
 	Runs  []gRun   `json:"runs"`
 }
 
@@ -314,6 +315,7 @@ type gsProxy struct {
 	onFrame func(idx int, kind string, req, reply []byte, act gsAction, fr *gFrame)
 
 	mu     sync.Mutex
+	idx    int
 	frames []gFrame
 	done   chan struct{}
 }
@@ -332,6 +334,23 @@ func newGsProxy(kr agent.Agent) *gsProxy {
 
 func (p *gsProxy) start() { go p.loop() }
 
+// begin installs the script of the next run; agent operation indices and the frame log restart.
+func (p *gsProxy) begin(script func(idx int, kind string, req []byte) gsAction,
+	onFrame func(idx int, kind string, req, reply []byte, act gsAction, fr *gFrame)) {
+	p.mu.Lock()
+	p.script, p.onFrame, p.idx, p.frames = script, onFrame, 0, nil
+	p.mu.Unlock()
+}
+
+func (p *gsProxy) alive() bool {
+	select {
+	case <-p.done:
+		return false
+	default:
+		return true
+	}
+}
+
 func (p *gsProxy) roundTrip(c net.Conn, req []byte) ([]byte, error) {
 	if err := verifh.WriteFrame(c, req); err != nil {
 		return nil, err
@@ -342,18 +361,20 @@ func (p *gsProxy) roundTrip(c net.Conn, req []byte) ([]byte, error) {
 func (p *gsProxy) loop() {
 	defer close(p.done)
 	defer p.srv.Close()
-	idx := 0
 	for {
 		req, err := verifh.ReadFrame(p.srv)
 		if err != nil {
 			return
 		}
-		idx++
+		p.mu.Lock()
+		p.idx++
+		idx, script, onFrame := p.idx, p.script, p.onFrame
+		p.mu.Unlock()
 		kind := "other"
 		if len(req) > 0 {
 			kind = verifh.ReqKind(req[0])
 		}
-		act := p.script(idx, kind, req)
+		act := script(idx, kind, req)
 		fr := gFrame{K: kind, F: act.fault}
 		var reply []byte
 		switch act.kind {
@@ -383,8 +404,8 @@ func (p *gsProxy) loop() {
 			}
 		}
 		fr.Ok = act.fault == "none" && act.kind != "close" && len(reply) > 0 && (reply[0] == 6 || reply[0] == 12 || reply[0] == 14)
-		if p.onFrame != nil {
-			p.onFrame(idx, kind, req, reply, act, &fr)
+		if onFrame != nil {
+			onFrame(idx, kind, req, reply, act, &fr)
 		}
 		p.mu.Lock()
 		p.frames = append(p.frames, fr)
@@ -701,6 +722,13 @@ type gInst struct {
 	oldSig map[string][]byte // key tag -> last genuine sign reply
 	oldDat [][]byte          // data of earlier sign requests
 	known  []ssh.PublicKey
+
+	// reuse mode (gCase.Reuse)
+	px     *gsProxy
+	regH   gensign.Handler
+	fixVal uint64
+	fixIds []gIdent
+	fixed  bool
 }
 
 var nearMiss = map[string][]string{
@@ -941,7 +969,18 @@ func (g *gInst) runOne(ri int, run *gRun, pre []gID) (*gRec, []gID, error) {
 		return nil, nil, fmt.Errorf("login / user names must be file names")
 	}
 	// ---- registered-key directory ----
-	cv.dirPath = filepath.Join(g.tmp, fmt.Sprintf("keys%d", ri))
+	if g.c.Reuse {
+		// one handler object serves all runs: its configuration (directory path, validity, key slots) is that of the first run
+		cv.dirPath = filepath.Join(g.tmp, "keys")
+		os.RemoveAll(cv.dirPath)
+		if g.fixed {
+			run.Val, run.Ids = g.fixVal, g.fixIds
+		} else {
+			g.fixVal, g.fixIds, g.fixed = run.Val, run.Ids, true
+		}
+	} else {
+		cv.dirPath = filepath.Join(g.tmp, fmt.Sprintf("keys%d", ri))
+	}
 	if err := os.MkdirAll(cv.dirPath, 0o700); err != nil {
 		return nil, nil, err
 	}
@@ -996,15 +1035,29 @@ func (g *gInst) runOne(ri int, run *gRun, pre []gID) (*gRec, []gID, error) {
 	// ---- forwarded agent connection ----
 	obs := &gObs{Auth: make([]gAuth, len(run.Hs)), Chal: []gChal{}, Gen: []gGen{}, Csr: []gCsr{}, Certs: []gCert{}, Fr: []gFrame{}, Hp: []gHP{}}
 	rc := &runCtx{obs: obs, owner: map[*proto.SSHCertificateSigningRequest]int{}}
-	px := newGsProxy(g.kr)
-	defer px.close()
+	px := g.px
+	if px == nil || !px.alive() {
+		if px != nil {
+			px.close()
+		}
+		px = newGsProxy(g.kr)
+		px.begin(func(int, string, []byte) gsAction { return gsAction{kind: "pass", fault: "none"} }, nil)
+		px.start()
+		g.px, g.regH = nil, nil
+		if g.c.Reuse {
+			g.px = px
+		}
+	}
+	if !g.c.Reuse {
+		defer px.close()
+	}
 	heldU := false
 	for _, id := range pre {
 		if id.Tag == tagOf(g.U.Pub.Marshal()) && id.T == "key" {
 			heldU = true
 		}
 	}
-	px.script = func(idx int, kind string, req []byte) gsAction {
+	script := func(idx int, kind string, req []byte) gsAction {
 		if fk, ok := agF[idx]; ok {
 			switch fk {
 			case "fail":
@@ -1089,7 +1142,7 @@ func (g *gInst) runOne(ri int, run *gRun, pre []gID) (*gRec, []gID, error) {
 			return gsAction{kind: "reply", reply: []byte{5}, fault: "none"}
 		}
 	}
-	px.onFrame = func(idx int, kind string, req, reply []byte, act gsAction, fr *gFrame) {
+	onFrame := func(idx int, kind string, req, reply []byte, act gsAction, fr *gFrame) {
 		if kind != "sign" {
 			return
 		}
@@ -1143,16 +1196,23 @@ func (g *gInst) runOne(ri int, run *gRun, pre []gID) (*gRec, []gID, error) {
 		obs.Chal = append(obs.Chal, ch)
 		rc.mu.Unlock()
 	}
-	px.start()
+	px.begin(script, onFrame)
 	// ---- handlers ----
 	var hs []gensign.Handler
 	for i, hk := range run.Hs {
 		var inner gensign.Handler
 		switch hk {
 		case "regular":
-			inner, err = NewHandler(gconf, px.client)
-			if err != nil {
-				return nil, nil, fmt.Errorf("NewHandler: %v", err)
+			if g.c.Reuse && g.regH != nil {
+				inner = g.regH
+			} else {
+				inner, err = NewHandler(gconf, px.client)
+				if err != nil {
+					return nil, nil, fmt.Errorf("NewHandler: %v", err)
+				}
+				if g.c.Reuse {
+					g.regH = inner
+				}
 			}
 		case "accept", "reject":
 			inner = &stubHandler{accept: hk == "accept", sgen: run.Sgen, ncsr: run.Ncsr, val: run.Val, ag: agent.NewClient(px.client)}
@@ -1196,7 +1256,9 @@ func (g *gInst) runOne(ri int, run *gRun, pre []gID) (*gRec, []gID, error) {
 	case <-time.After(60 * time.Second):
 		return nil, nil, fmt.Errorf("gensign.Run did not return within 60 s")
 	}
-	px.close()
+	if !g.c.Reuse {
+		px.close()
+	}
 	px.mu.Lock()
 	obs.Fr = append(obs.Fr, px.frames...)
 	px.mu.Unlock()
@@ -1256,6 +1318,9 @@ func runCase(c *gCase, tmpRoot string) ([]interface{}, error) {
 		out = append(out, rec)
 		pre = post
 	}
+	if g.px != nil {
+		g.px.close()
+	}
 	return out, nil
 }
 
@@ -1278,6 +1343,10 @@ func randomCase(n int, maxRuns int) gCase {
 		c.Pre = c.Pre[1:] // the agent does not hold the user's key
 	}
 	nr := 1 + r.Intn(maxRuns)
+	if r.Intn(2) == 0 {
+		c.Reuse = true
+		nr = 2 + r.Intn(maxRuns)
+	}
 	fcls := func(w []int) string { // weights for none, U, O, bad
 		t := r.Intn(w[0] + w[1] + w[2] + w[3])
 		switch {
